@@ -71,6 +71,8 @@ LOOPS = [
     ("const", "for i in seq(0, 8):"),
     ("lo1", "for i in seq(1, n):"),
     ("lo2c", "for i in seq(2, 6):"),
+    ("c4", "for i in seq(0, 4):"),
+    ("lo5c", "for i in seq(5, 9):"),
 ]
 FACTS = [
     ("none", None),
@@ -517,7 +519,7 @@ def plan(tier, vseed):
 
     names = seed_names()
     if tier == "quick":
-        names = [n for i, n in enumerate(names) if i % 3 == vseed % 3]
+        pass  # quick also covers every seed
     for b in range(0, len(names), 3):
         jobs.append({"kind": "corpus", "seeds": names[b : b + 3], "rngseed": vseed})
     return jobs, len(specs)
